@@ -53,9 +53,9 @@ def main():
     seed = os.path.abspath(a.seed)
     meta = json.load(open(os.path.join(seed, "meta.json")))
     name = os.path.basename(seed)
-    if name in ("A", "B", "C", "D"):
-        parts = seed.split(os.sep)
-        name = (parts[-3] if parts[-2] == "out" else parts[-2]) + "_" + name
+    parts = seed.split(os.sep)
+    if len(parts) >= 3 and parts[-2] == "out":
+        name = parts[-3] + "_" + name
     checks = a.checks.split(",") if a.checks else [meta["property"]]
     root = "/tmp/seedrun/%s_%d" % (name, os.getpid())
     wt = os.path.join(root, "wt")
